@@ -105,6 +105,21 @@ pub fn c01(tier: &str) -> i32 {
         pre3.push(Op::Auto(Stmt::Insert { table: "t".into(), rows: vec![vec![i(20 + n as i128), tx(&big(*c))]] }));
     }
     searches.push(mk("C01", "C01", "seed: log block zero about 90% full", Cfg::default(), pre3, committed_alphabet(), if quick { 2 } else { 4 }, if quick { 3_000 } else { 200_000 }, false));
+    // table with a unique index on k: the recovered rows must also be found through the index
+    let pre4 = vec![Op::Auto(Stmt::CreateTable(t_text().with_unique(&["k"]))), Op::Auto(ins(1, "a"))];
+    let alpha4 = vec![
+        Op::Auto(ins(2, "b")),
+        Op::Auto(ins(3, "c")),
+        Op::Auto(del(1)),
+        Op::Begin(1),
+        Op::In(1, ins(5, "e")),
+        Op::Commit(1),
+        Op::Begin(2),
+        Op::In(2, ins(8, "h")),
+        Op::Commit(2),
+        Op::Flush,
+    ];
+    searches.push(mk("C01", "C01", "table with a unique index (recovered rows are also looked up by key)", Cfg::default(), pre4, alpha4, if quick { 4 } else { 6 }, if quick { 20_000 } else { 300_000 }, false));
     run_searches(
         "C01",
         tier,
@@ -145,6 +160,25 @@ pub fn c02(tier: &str) -> i32 {
         let mut pre = prefix_basic();
         pre.push(Op::Flush);
         searches.push(mk("C02", "C02", &format!("committed, rolled-back, failed and still-open transactions on a checkpointed table ({label})"), cfg, pre, alpha.clone(), if quick { 4 } else { 5 }, if quick { 30_000 } else { 400_000 }, false));
+    }
+    {
+        let mut pre = vec![Op::Auto(Stmt::CreateTable(t_text().with_unique(&["k"]))), Op::Auto(ins(1, "a")), Op::Flush];
+        pre.push(Op::Auto(ins(9, "i")));
+        let alpha_u = vec![
+            Op::Auto(ins(2, "b")),
+            Op::Auto(del(1)),
+            Op::Begin(1),
+            Op::In(1, ins(5, "e")),
+            Op::In(1, del(9)),
+            Op::Commit(1),
+            Op::Rollback(1),
+            Op::DropSession(1),
+            Op::Begin(2),
+            Op::In(2, ins(8, "h")),
+            Op::Commit(2),
+            Op::Flush,
+        ];
+        searches.push(mk("C02", "C02", "table with a unique index: losers and committed work, recovered rows also looked up by key", Cfg::default(), pre, alpha_u, if quick { 4 } else { 5 }, if quick { 20_000 } else { 300_000 }, false));
     }
     run_searches(
         "C02",
